@@ -52,7 +52,10 @@ def declare(E):
     # (the name resolves to the library class: a classmethod called with the bytes only)
     E.contract("cryptography.hazmat.primitives.asymmetric.x25519.X25519PublicKey.from_public_bytes", argnames=["data"],
                returns="opaque:X25519Pub", raises={"ValueError": "len(data) != 32"})
-    E.contract("X25519Priv.exchange", argnames=["self", "peer"], returns="bytes", ensures=["len(result) == 32"])
+    # (probed natively: for a low-order peer point the library raises ValueError("Error computing shared key.") instead of
+    # returning the all-zero secret)
+    E.contract("X25519Priv.exchange", argnames=["self", "peer"], returns="bytes", ensures=["len(result) == 32"],
+               raises={"ValueError": "True"})
     E.contract("lib:bytes_eq", argnames=["a", "b"], returns="bool", ensures=["result == (a == b)"])
 
     REJECT = {"SSHException": {"when": "True", "ensures": ["ghost('activated') == old(ghost('activated'))"]}}
